@@ -10,6 +10,7 @@ import UF.Proofs.ParseWF
 import UF.Proofs.ParseTotal
 import UF.Props.C10
 import UF.Props.C18
+import UF.Compose2.RegexShortcut
 /-
   Integration (group I2), part 4: the COMPLETE model of `rules.NewRule`.
 
@@ -18,7 +19,8 @@ import UF.Props.C18
       `newHostRule`     rules.NewHostRule          ↦ group H's `H.newHostRule`, with its parameter `dn`
                                                      (filterutil.IsDomainName) ↦ group E's `isDomainNameC`
       `loadDNSRewrite`  rules.loadDNSRewrite       ↦ group H's `H.loadDNSRewrite`
-      `regexpShortcut`  findRegexpShortcut         ↦ STAYS A PARAMETER (see below)
+      `regexpShortcut`  findRegexpShortcut         ↦ a parameter of `newRuleFull`; instantiated by
+                                                     `modelRegexpShortcut` in `newRuleM` (see below)
   and the genuinely external `ext.parseAddr`, `ext.parsePrefix` (net/netip), `ext.psl`.
 
   The regex shortcut.  `findRegexpShortcut` = textual candidate generation (three bracket-stripping
@@ -26,9 +28,12 @@ import UF.Props.C18
   the filter against `requiredRegexpLiterals` of Go's OWN parse tree (`regexp/syntax`, which merges
   adjacent literals and factors alternations — the filter `isRequiredLiteral` looks for the candidate
   inside ONE literal of that simplified tree).  Group A proved the result sound for an arbitrary
-  candidate list and justified Go's shortcut against Go's tree; an exact model of the simplifier is
-  not available, so the shortcut of `/regex/` rules is the single remaining Go-supplied table of the
-  parser.  Mask rules need no oracle.
+  candidate list and justified Go's shortcut against Go's tree.  `newRuleFull` / `parseNetRuleFull`
+  keep the shortcut of `/regex/` rules as a parameter `reShortcut` (theorems hold for every such
+  function); `newRuleM` / `parseNetRuleM` instantiate it with the text-level model
+  `modelRegexpShortcut` (UF/Compose2/RegexShortcut.lean: heuristics + literal merging + alternation
+  factoring of Go's parser), exact on ASCII texts inside the subset of `parseRE`.  Mask rules need no
+  oracle in either.
 -/
 namespace UF.I2
 open UF Bytes
@@ -75,6 +80,27 @@ def newRuleFull (ext : Ext) (reShortcut : Bytes → Bytes) (line : Bytes) (listI
 /-- The accepted rules of a list, over the complete model. -/
 def scanAcceptedFull (ext : Ext) (reShortcut : Bytes → Bytes) (listID : Int) (lines : List Bytes) : List Rule :=
   E.scanAccepted (fullRuleExt ext reShortcut) listID lines
+
+/-! ### With the regex shortcut modelled too (UF/Compose2/RegexShortcut.lean): no parameter left but `ext` -/
+
+/-- `findRegexpShortcut` from the text (`[]` outside the domain of the model; `regexShortcutInDomain`
+    says when the model answers). -/
+def reShortcutM (pattern : Bytes) : Bytes := (modelRegexpShortcut pattern).getD []
+
+def regexShortcutInDomain (pattern : Bytes) : Bool := (modelRegexpShortcut pattern).isSome
+
+/-- The complete model of `rules.NewNetworkRule`, no oracle but `netip`. -/
+def parseNetRuleM (ext : Ext) (text : Bytes) (listID : Int) : E.PE NetRule :=
+  parseNetRuleFull ext reShortcutM text listID
+
+/-- The complete model of `rules.NewRule`, no oracle but `netip`. -/
+def newRuleM (ext : Ext) (line : Bytes) (listID : Int) : E.PE (Option Rule) :=
+  newRuleFull ext reShortcutM line listID
+
+/-- Is the model exact on this outcome?  A `/regex/` rule needs the shortcut model to be in its domain. -/
+def ruleShortcutInDomain : E.PE (Option Rule) → Bool
+  | .ok (some (.net r)) => !UF.isRegexPattern r.pattern || regexShortcutInDomain r.pattern
+  | _ => true
 
 /-! ### The assumptions group E's theorems made about the parameters -/
 
